@@ -337,3 +337,74 @@ mut('c07-no-rename', 'C07', ['C07.5'], S,
 mut('c07-update-keyed-without-bus', 'C07', ['C07.5'], M,
     "        handler_id: PythonIdStr = get_handler_id(handler, eventbus)\n", "        handler_id: PythonIdStr = get_handler_id(handler)\n",
     'result records keyed without the bus')
+
+# ================================================================================================ C08
+mut('c08-pending-overwrite', 'C08', ['C08.1'], S,
+    "            if handler_id not in event.event_results:\n                event.event_result_update(\n",
+    "            if True:\n                event.event_result_update(\n",
+    "re-processing resets existing results to 'pending'")
+mut('c08-cancel-overwrites', 'C08', ['C08.1'], M,
+    "                if result.status == 'pending':\n", "                if result.status != 'completed':\n",
+    'child cancellation overwrites started/error results')
+mut('c08-assign-outside-update', 'C08', ['C08.2'], S,
+    "            event.event_result_update(handler=handler, eventbus=self, error=handler_timeout_error)\n            event.event_cancel_pending_child_processing(handler_timeout_error)\n",
+    "            event.event_result_update(handler=handler, eventbus=self, error=handler_timeout_error)\n            event_result.status = 'error'\n            event.event_cancel_pending_child_processing(handler_timeout_error)\n",
+    'status assigned outside EventResult.update')
+mut('c08-completed-at-overwritten', 'C08', ['C08.2'], M,
+    "        if self.status in ('completed', 'error') and not self.completed_at:\n", "        if self.status in ('completed', 'error'):\n",
+    'completed_at rewritten on every update')
+mut('c08-second-terminal-update', 'C08', ['C08.2'], S,
+    "            return cast(T_EventResultType, result_value)\n",
+    "            if isinstance(result_value, BaseEvent):\n                event.event_result_update(handler=handler, eventbus=self, result=None)\n            return cast(T_EventResultType, result_value)\n",
+    'a second terminal update after the first')
+mut('c08-timeout-no-error-update', 'C08', ['C08.2'], S,
+    "            event.event_result_update(handler=handler, eventbus=self, error=handler_timeout_error)\n            event.event_cancel_pending_child_processing(handler_timeout_error)\n",
+    "            event.event_cancel_pending_child_processing(handler_timeout_error)\n",
+    'TimeoutError exit without a terminal update')
+mut('c08-cancel-no-error-update', 'C08', ['C08.2'], S,
+    "            event.event_result_update(handler=handler, eventbus=self, error=handler_interrupted_error)\n", "",
+    'CancelledError exit without a terminal update')
+mut('c08-terminal-update-in-process', 'C08', ['C08.2'], S,
+    "        await self._default_log_handler(event)\n",
+    "        for _hid, _h in applicable_handlers.items():\n            if event.event_results[_hid].status == 'started':\n                event.event_result_update(handler=_h, eventbus=self, error=RuntimeError('stuck'))\n        await self._default_log_handler(event)\n",
+    'process_event finalises results itself')
+
+# ================================================================================================ C09
+mut('c09-missing-reset', 'C09', ['C09.1'], S,
+    "            _current_handler_id_context.reset(handler_id_token)\n", "            pass\n",
+    'handler id context never reset')
+mut('c09-reset-outside-finally', 'C09', ['C09.1'], S,
+    "        finally:\n            # Reset context\n            _current_event_context.reset(token)\n",
+    "        finally:\n            # Reset context\n            if handler_task is None or handler_task.done():\n                _current_event_context.reset(token)\n",
+    'current-event context not reset when the handler task is still running (cancellation)')
+mut('c09-await-between-set-and-try', 'C09', ['C09.1', 'C09.5'], S,
+    "        handler_task = None\n        try:\n            if inspect.iscoroutinefunction(handler):",
+    "        handler_task = None\n        await asyncio.sleep(0)\n        try:\n            if inspect.iscoroutinefunction(handler):",
+    'a suspension point between the context sets and the try: cancellation there leaks the context')
+mut('c09-parent-overwritten', 'C09', ['C09.2'], S,
+    "        if event.event_parent_id is None:\n            current_event: 'BaseEvent[Any] | None' = _current_event_context.get()",
+    "        if True:\n            current_event: 'BaseEvent[Any] | None' = _current_event_context.get()",
+    'explicit parent id overwritten')
+mut('c09-revert-f8', 'C09', ['C09.3'], S,
+    "            if current_event is not None and current_event.event_id != event.event_id:\n                event.event_parent_id = current_event.event_id",
+    "            if current_event is not None:\n                event.event_parent_id = current_event.event_id",
+    'forwarded root becomes its own parent (F8 reverted)')
+mut('c09-child-self', 'C09', ['C09.3'], S,
+    "                        if event.event_id != current_event.event_id:\n                            current_event", "                        if True:\n                            current_event",
+    'forwarded event recorded as its own child')
+mut('c09-append-to-last-result', 'C09', ['C09.4'], S,
+    "                            current_event.event_results[current_handler_id].event_children.append(event)",
+    "                            list(current_event.event_results.values())[-1].event_children.append(event)",
+    'child attributed to the last result instead of the current handler')
+mut('c09-handler-id-from-elsewhere', 'C09', ['C09.4'], S,
+    "                current_handler_id = _current_handler_id_context.get()\n                if current_handler_id is not None and inside_handler_context.get():",
+    "                current_handler_id = next(iter(event.event_results), None) or _current_handler_id_context.get()\n                if current_handler_id is not None and inside_handler_context.get():",
+    'handler id not taken from the context variable')
+mut('c09-set-after-invocation', 'C09', ['C09.5'], S,
+    "        # Set the current handler ID so child events can be tracked\n        handler_id_token = _current_handler_id_context.set(handler_id)\n",
+    "        handler_id_token = None\n",
+    'handler id context never set before the handler runs')
+mut('c09-ctx-written-in-dispatch', 'C09', ['C09.6'], S,
+    "        # Auto-start if needed\n        self._start()\n",
+    "        # Auto-start if needed\n        _current_event_context.set(event)\n        self._start()\n",
+    'dispatch overwrites the current-event context')
